@@ -31,11 +31,14 @@ func (s *sched) chanOf(ch any) *chanState {
 	if k == 0 {
 		return nil // nil channel: never ready
 	}
-	cs, ok := s.chans[k]
-	if !ok {
-		cs = &chanState{cap: reflect.ValueOf(ch).Cap()}
-		s.chans[k] = cs
+	for i, x := range s.chanKeys {
+		if x == k {
+			return s.chanVals[i]
+		}
 	}
+	cs := &chanState{cap: reflect.ValueOf(ch).Cap()}
+	s.chanKeys = append(s.chanKeys, k)
+	s.chanVals = append(s.chanVals, cs)
 	return cs
 }
 
